@@ -153,6 +153,12 @@ prop('C31', prefix=['c31'],
             'an empty styled cell, user content, a stale spill of this anchor or a spill of another anchor (symbolic styles and anchor); anchor in the last row / column; through the real evaluator: =SEQUENCE($A$1) at an anchor anywhere in rows/columns 2..=4 shrinking from 3 rows to 1 or 2 on re-evaluation, '
             'and the horizontal spill =F1:H1 at A3 after deleting column G or H and re-evaluating',
      outside='other shrink/grow histories, undo, paste, row edits, 2-D spills through the evaluator; results larger than 2x2 in the write step')
+prop('C32', prefix=['c32'],
+     bounds='three sheets; global names Rate = Sheet1!$A$1 and Base = Data!$B$3 created through Model::new_defined_name, used by =Rate*2+Base and =SUM(Rate,Base); one of: '
+            'set_language to de / es / fr / it, set_locale to de, rename of the sheet no name refers to, move of any sheet to any index, deletion of the sheet no name refers to; '
+            'then (after the sheet rename) the name Rate is renamed to Tax; values through the real evaluator, stored and listed name formulas compared',
+     outside='sheet-local names, names referring to ranges or other names, renaming / deleting a sheet a name refers to, both file round trips (xlsx, bitcode), '
+             'other formulas')
 prop('C33', prefix=['c33'],
      bounds='CF coordinates: row/column/position/count/offset any i32 inside the grid, sheet ids any u32; links: 2 links at any distinct in-grid '
             'cells, insert/delete any position and count, block move <=2 by |offset| <=2; a CellIs/Between rule on G20:H22 with bounds B2 and $C$3 under insert/delete of '
